@@ -26,6 +26,10 @@ func init() {
 }
 
 func runC19(r *R) {
+	if (r.Mode == "" && r.W.Draw(5) == 0) || r.Mode == "grpc" {
+		c19GRPC(r)
+		return
+	}
 	if (r.Mode == "" && r.W.Draw(3) == 0) || r.Mode == "scenario" {
 		c19Scenario(r)
 		return
@@ -218,4 +222,37 @@ func c19Scenario(r *R) {
 		}
 	}
 	_ = starts
+}
+
+// ---- gRPC guns against every status code, handlers slower than the timeout and connections reset in flight ----
+
+func c19GRPC(r *R) {
+	p := genGRPCPlan(r, true)
+	r.Sample(map[string]any{"mode": "grpc", "scenario": p.Scenario, "entries": p.Entries, "passes": p.Passes, "instances": p.Inst, "codes": fmt.Sprint(p.Codes), "slow": fmt.Sprint(p.Slow), "reset": fmt.Sprint(p.Reset), "timeout": p.Timeout.String()})
+	r.NonTrivial()
+	out := runGRPCPlan(r, p)
+	res := out.Res
+	switch res.Sim.Class {
+	case simrt.Crash:
+		r.Fail("CRASH/grpc/"+frameSig(res.Sim.Stack), "%s\n%s", res.Sim.Detail, res.Sim.Stack)
+		return
+	case simrt.Hang, simrt.Livelock, simrt.Spin:
+		r.Fail("run-never-ends/grpc", "%s (run returned=%v, %d of %d samples)", res.Sim.Detail, res.RunDone, len(res.Samples), out.Fired)
+		return
+	}
+	if res.DecodeErr != nil {
+		r.Fail("config-rejected", "the pool configuration was rejected: %v", res.DecodeErr)
+		return
+	}
+	if res.RunErr != nil {
+		cls := "run-aborted/grpc"
+		if strings.Contains(res.RunErr.Error(), "shoot panic") {
+			cls = "shoot-panic/grpc"
+		}
+		r.Fail(cls, "Engine.Run returned %q after %d of %d samples (server statuses %v, slow %v, resets %v)", res.RunErr, len(res.Samples), out.Fired, p.Codes, p.Slow, p.Reset)
+		return
+	}
+	if len(res.Samples) != out.Fired {
+		r.Fail("sample-count/grpc", "%d calls were to be made (%d entries x %d passes), %d samples were reported (server statuses %v)", out.Fired, p.Entries, p.Passes, len(res.Samples), p.Codes)
+	}
 }
